@@ -23,10 +23,12 @@ RULE = ("programs = trees of 2..25 complete commands (notes with accidentals / l
         "track / channel / voice / tempo / time-signature / key / controller / script commands, all closed by ')' or ';'), each "
         "rendered canonically and with two random layouts; compared through compile_lex and compile; plus the full-width "
         "spelling through compile. non-trivial = distinct program with >= 3 commands whose random layouts contain a comment "
-        "and a line break")
+        "and a line break; plus the continued length (`c1 | ^1`, the tie over a bar line): spaces, tabs, bar lines and line breaks "
+        "before a '^' continuation of a note / rest / l length compile like no blank at all")
 TRUSTED = ["reader contracts (a reader consumes exactly its command and stops before the separator) are proved only for the "
            "loop's own arms and for lettered notes without comma parameters; for the other readers the law is exercised by the oracle, not proved"]
-ASSUMES = ["layout is placed only BETWEEN complete commands, never inside one (not between a name and its '(', not inside a length)",
+ASSUMES = ["layout is placed only BETWEEN complete commands, never inside one (not between a name and its '(', not inside a length) - except "
+           "in the continued-length cases, where only the blanks the length reader documents (space, tab, bar line, line break before '^') are used",
            "expression-valued arguments are closed by ')' or ';' (`@5;`, `TEMPO=90;`); commands with an optional argument list are "
            "always closed by ';' or '()' (`ResetGM;`, `#M;`): an argument list, also an optional one, must be closed by ')' ';' or a line "
            "break - `ResetGM ( c` takes the '(' as its argument list (ruled outside the property; non-strict corpus witness)",
@@ -119,7 +121,7 @@ def comment(rng):
         return "//" + rng.choice(["", " ", "/"]) + w + "\n"
     if k == 1:
         w = w.replace("*", "").replace("/", "")
-        return "/*" + rng.choice([" ", "*", "\n", " \n "]) + w + rng.choice(["", " ", "\n"]) + "*/"
+        return "/*" + rng.choice([" ", "*", "\n", " \n ", "", ""]) + w + rng.choice(["", " ", "\n"]) + "*/"
     return ["##", "# ", "#-"][k - 2] + w.replace("/", "").replace("*", "") + "\n"
 
 
@@ -356,13 +358,16 @@ def run(ctx):
     step = 400
     for k in range(0, len(progs), step):
         law(ctx, progs[k:k + step], "generated")
+    run_continuation(ctx, rng, 150 if ctx.tier == "quick" else 4000)
     # every separator and comment form alone between two notes, after every kind of command
     singles = []
     firsts = ["c", "c4", "c+", "c4.", "c8,80", "c&", "r", "r4", "n60,4", "l8", "o5", "v100", "q90", "t1", ">", "(", ")", "`", "[2", ":", "]",
               "'", "'4", "TR(2)", "@5;", "@(5)", "Tempo(120)", "TEMPO=90;", "TrackSync;", "KF+(fc)", "TIME(2:1:0)", "ResetGM;", "y7,100;", "M(64)",
               "PRINT(1)", "{c d}4", "Sub{c}", "#M={c};", "v++"]
     lays = [" ", "\t", "\r", "\n", "|", ";", "　", "\r\n", "\n\n", " // x\n", " /* x */ ", " ## x\n", " # x\n", " #- x\n", " /// x\n",
-            " /** x */ ", "\n// ^\n", " /*\n\n*/ ", ";;", "||", " | ", "\n# c d e\n", "\n#-----\n", "\n##\n"]
+            " /** x */ ", "\n// ^\n", " /*\n\n*/ ", ";;", "||", " | ", "\n# c d e\n", "\n#-----\n", "\n##\n",
+            # comments with no text at all
+            "/**/", " /**/ ", "\n/**/\n", "/***/", "/****/", "/* */", "//\n", " ///\n", "\n#-\n", " ##\n", "/**//**/", "/**/ /**/"]
     for f in firsts:
         pre = "[2 c " if f in (":", "]") else ("'c" if f in ("'4",) else "")
         post = " ]" if f in ("[2", ":") else ("'" if f == "'" else "")
@@ -389,6 +394,49 @@ def run(ctx):
             ctx.unsupported += 1
         elif m != g:
             ctx.disagree("compile (lex/exec/generate) with one separator", s, g[:300], m[:300])
+
+
+def run_continuation(ctx, rng, n):
+    """a length continued with '^' across blanks, bar lines and line breaks (`c1 | ^1`, the tie over a bar line): the blanks the
+    length reader accepts inside a length are interchangeable and equal to no blank at all"""
+    heads = ["c", "d+", "r", "n60,", "a-", "l"]
+    parts = ["1", "2", "4", "8", "4.", "%24", "16", ""]
+    blanks = [" ", "\t", "|", " | ", "\n", " \n ", "|\n", "  ", "\t|\t", "| |", "\n\n"]
+    cases = []
+    for h in heads:
+        for b in blanks:
+            cases.append((h, "2", "2", b))
+    for _ in range(n):
+        cases.append((rng.choice(heads), rng.choice(parts), rng.choice(parts[:-1]), rng.choice(blanks)))
+    lines, index = [], []
+    for (h, a, b2, bl) in cases:
+        pre = rng.choice(["l4 ", "l8 o5 ", "", "TR(2) l2 "])
+        post = rng.choice([" d", " e8 f", "\nd", "|d"])
+        ta = pre + h + a + "^" + b2 + post
+        tb = pre + h + a + bl + "^" + b2 + post
+        third = pre + h + a + "^" + b2 + bl + "^" + b2 + post
+        ref3 = pre + h + a + "^" + b2 + "^" + b2 + post
+        for (x, y) in ((ta, tb), (ref3, third)):
+            index.append((x, y))
+            for t in (x, y):
+                lines.append("compile_lex\t%s" % vlib.enc_text(t))
+                lines.append("compile\t%s\t0" % vlib.enc_text(t))
+    got = ctx.impl(lines, stall=15)
+    for i, (x, y) in enumerate(index):
+        for j, kind in ((0, "lexer::lex"), (1, "compile")):
+            ga, gb = bytes_of(got[4 * i + j]), bytes_of(got[4 * i + 2 + j])
+            ctx.count("continuation", y)
+            if ga != gb:
+                ctx.oracle_fail("blanks / bar lines / line breaks before a '^' continuation change the bytes (%s)" % kind,
+                                "compile\t%s" % vlib.enc_text(y), "%r -> %s" % (y, gb[-160:]), "%r -> %s" % (x, ga[-160:]), input_text=y)
+    srcs = [y for _, y in index]
+    mod = ctx.model(["compile_core\t%s" % vlib.enc_text(t) for t in srcs])
+    for k, (t, m) in enumerate(zip(srcs, mod)):
+        g = got[4 * k + 2]
+        if m.startswith("UNSUPPORTED") or m.startswith("OUTOFFUEL"):
+            ctx.unsupported += 1
+        elif m != g:
+            ctx.disagree("compile (lex/exec/generate) with a continued length", t, g[:300], m[:300])
 
 
 def replay(ctx, obj):
